@@ -25,3 +25,17 @@ theorem rangeI_nodup (lo hi : Int) : (rangeI lo hi).Nodup := by
 
 theorem length_rangeI (lo hi : Int) : (rangeI lo hi).length = (hi - lo).toNat := by
   simp [rangeI]
+
+/-! ### exact arithmetic used by the sampler definitions -/
+
+/-- Python float `%` with a positive modulus, exactly: `a - floor(a / b) * b`. -/
+def ratMod (a b : Rat) : Rat := a - ((a / b).floor : Int) * b
+
+/-- `np.round` (round half to even) followed by `.astype(int)`. -/
+def roundHE (q : Rat) : Int :=
+  let f := q.floor
+  let r := q - f
+  if r < 1 / 2 then f else if 1 / 2 < r then f + 1 else if f % 2 = 0 then f else f + 1
+
+/-- `np.clip` on integers -/
+def clipI (v lo hi : Int) : Int := if v < lo then lo else if hi < v then hi else v
